@@ -514,9 +514,13 @@ def is_relevant(node):
     """Checks whether this theory might be relevant for this node."""
     if node.has_ident():
         if node.get_ident() in ['declare-const']:
+            if len(node) < 3:
+                return False
             if nodes.contains(node[2], is_bv_sort):
                 return True
         elif node.get_ident() in ['declare-fun', 'define-fun', 'define-sort']:
+            if len(node) < 4:
+                return False
             if nodes.contains(node[3], is_bv_sort):
                 return True
     return False
